@@ -22,6 +22,7 @@ type SolveResult struct {
 	File    string
 	Answers map[string]string
 	Hash    string
+	Errors  []string
 }
 
 var safeName = regexp.MustCompile(`[^A-Za-z0-9_.#\[\]@-]`)
@@ -114,6 +115,8 @@ func solve(workdir, name, query string, timeoutS, seed int, needAgreement bool) 
 			st := "unknown"
 			if first == "sat" || first == "unsat" {
 				st = first
+			} else if strings.HasPrefix(first, "(error") && !strings.Contains(first, "model is not available") {
+				st = "error"
 			}
 			ch <- ans{s.name, st, txt, time.Since(t0).Seconds()}
 		}(s)
@@ -133,6 +136,11 @@ func solve(workdir, name, query string, timeoutS, seed int, needAgreement bool) 
 			} else if res.Status != a.status {
 				res.Status = "disagree"
 				res.Output += "\n--- " + a.solver + " ---\n" + a.out
+			}
+		} else if a.status == "error" {
+			res.Errors = append(res.Errors, a.solver+": "+strings.SplitN(a.out, "\n", 2)[0])
+			if res.Status == "unknown" {
+				res.Output = a.out
 			}
 		} else if res.Status == "unknown" && len(a.out) > 0 {
 			res.Output = a.out
